@@ -605,7 +605,10 @@ def analyse_fn(crate, fn, st, exc, used_exc, emit):
         ek = (fshort, 'consumer', name or pk)
         if in_wrapper_impl:
             par = H.parents(fn).get(id(p))
-            if name == 'next' and par is not None and par.get('k') == 'Try':
+            if pk == 'Assign' and T.by_type(p['l']):
+                ob('R8.1', key, False, loc, 'inside wrapper iterator %s: a hash-ordered iterator that is in progress is overwritten (`%s`): the elements it had not yielded yet — '
+                   'which ones depends on hash order — are never visited' % (short(fn['impl_self']), pp(p, maxlen=50)))
+            elif name == 'next' and par is not None and par.get('k') == 'Try':
                 ob('R8.1', key, False, loc, 'inside wrapper iterator %s: `?` on the next() of one inner hash-ordered iterator ends the whole iteration when that '
                    'inner map is exhausted, so which elements are yielded depends on hash order' % short(fn['impl_self']))
             else:
